@@ -78,4 +78,15 @@ template class Array<UnitVectorBase<double>>;
 template class DataSet<int>;
 template class ClassSet<SVSetBase<double>::DLPSV>;
 template class DataHashTable<NameSet::Name, DataKey>;
+
+// member templates are not covered by the explicit class instantiations above: the vector conversions and the bulk append
+template SVectorBase<double>& SVectorBase<double>::operator=<double>(const SSVectorBase<double>&);
+template SVectorBase<double>& SVectorBase<double>::operator=<double>(const SVectorBase<double>&);
+template void DSVectorBase<double>::add<double>(const SVectorBase<double>&);
+template DSVectorBase<double>& DSVectorBase<double>::operator=<double>(const SVectorBase<double>&);
+template VectorBase<double>& VectorBase<double>::operator=<double>(const SVectorBase<double>&);
+template VectorBase<double>& VectorBase<double>::operator-=<double>(const SSVectorBase<double>&);
+template VectorBase<double>& VectorBase<double>::operator+=<double>(const SSVectorBase<double>&);
+template VectorBase<double>& VectorBase<double>::operator-=<double>(const SVectorBase<double>&);
+template VectorBase<double>& VectorBase<double>::operator+=<double>(const SVectorBase<double>&);
 }
